@@ -282,6 +282,13 @@ theorem add_contract_checked {Ω : List Nat} {before after : List Perm} {p : Per
 them, the survivor had no symmetry and has the transported swap afterwards -/
 example : Grpw.mergeOK [8, 12] [(8, 0), (12, 4)] [[(0, 4), (4, 0)]] [] [[(8, 12), (12, 8)]] = true := by decide
 
+/-- non-vacuity of the shrink contract: a class on the slots 8, 12 with the swap as its only generator shrinks to the slot 8; the swap
+does not respect the retained set, so no generator is kept and the new group is trivial -/
+example : Grpw.shrinkOK [8] [[(8, 12), (12, 8)]] [] = true := by decide
+
+/-- non-vacuity of the add contract: the swap is added to the trivial group on the slots 8, 12 -/
+example : Grpw.addOK [8, 12] [] [(8, 12), (12, 8)] [[(8, 12), (12, 8)]] = true := by decide
+
 /-- non-vacuity: two classes are allocated, class 1 (slots 0, 4) is merged into class 0 (slots 8, 12) with the arguments
 exchanged, then class 0 loses slot 12; all four writes pass the guards -/
 example : (Snap.applyWrites [] [(0, ⟨0, [(8, 8), (12, 12)]⟩), (1, ⟨1, [(0, 0), (4, 4)]⟩),
